@@ -185,6 +185,21 @@ theorem SSE2.search_stored (cfg : SSE2Cfg) (lv : Leaves) (K1 : Bytes) (db : DB) 
         rw [l2 a (hend hlt a ha)]
         rfl
 
+/-- SSE-1 with NO collision hypothesis on either permutation: node addresses (ψ) and table labels (π) are distinct because
+    both are the invertible bit PRP of C15, counters are distinct and keywords without a leading NUL byte have distinct
+    integer encodings.  Left: leaf laws; the array has ≥ 3 cells and keywords ≥ 1 byte; no key-sized draw is all zero;
+    no random filler key of the table equals this keyword's label. -/
+theorem SSE1.search_stored_valid (raw : RawCfg) (cfg : SSE1Cfg) (hcfg : SSE1.cfgBuild raw = .ok cfg) (lv : Leaves)
+    (hl : LeafLaws lv) (h2 : 2 ≤ cfg.log2s) (hl8 : 2 ≤ (cfg.l * 8).toNat) (K1 K2 K3 K4 : Bytes) (db : DB) (t t' : Tape)
+    (edb : SSE1EDB) (hs : SSE1.setup cfg lv [K1, K2, K3, K4] db t = .ok (edb, t')) (hk : SSE1.KeysGood cfg t)
+    (hidl : ∀ p ∈ db, ∀ x ∈ p.2, x.length = cfg.idSize.toNat) (hkeys : (db.map (·.1)).Nodup)
+    (hvalid : ∀ p ∈ db, NoLeadingNul p.1) (w : Bytes) (ids : List Bytes) (hm : (w, ids) ∈ db)
+    (hsz : ids.length ≤ cfg.s.toNat)
+    (hfresh : ∀ g, SSE1.piBytes cfg lv K3 w = .ok g → ∀ b, Draw.bytes b ∈ t → b ≠ g) :
+    ∃ tk, SSE1.token cfg lv [K1, K2, K3, K4] w = .ok tk ∧ SSE1.search cfg lv edb tk = .ok ids :=
+  SSE1.search_stored raw cfg hcfg lv hl h2 K1 K2 K3 K4 db t t' edb hs hk hidl hkeys
+    (SSE1.gammaInj_of_leaves cfg lv hl.hmac_len hl8 K3 db hvalid) w ids hm hsz hfresh
+
 /-- SSE-2 with NO collision hypothesis: address distinctness is derived from the C15 theorems (the bit PRP is invertible)
     and the injectivity of the encoding `keyword ‖ counter` on keywords without a leading NUL byte — the validity
     condition of the property.  Left: leaf law (HMAC digest length), capacity (`hcap`, `hn`). -/
